@@ -283,7 +283,7 @@ def count_and_cover(orc, discs):
     return counts, cover, [x == "1" for x in u.split()[1:]]
 
 
-def judge_discs(orc, discs):
+def judge_discs(orc, discs, max_full_bits=40000):
     """Bounds and coverage for returned discs, cheap first: a short INNER disc (contained in the returned disc)
     gives valid lower bounds / 'covered', a short OUTER disc (containing it) gives valid upper bounds /
     'certainly uncovered'; only what stays open is asked again with the full-length numbers.
@@ -298,6 +298,11 @@ def judge_discs(orc, discs):
     covered = [bool(l) for l in cov_i]; uncovered = list(unc_o)
     open_d = [i for i in range(n) if lo[i] != hi[i] and hi[i] != 0]
     open_r = [j for j in range(len(covered)) if not covered[j] and not uncovered[j]]
+    # the extracted checker works on binary positives: numbers of hundreds of thousands of bits (a solver that ran
+    # its precision up to 10^5..10^6 bits) would take hours; such discs stay undecided beyond the short answers
+    def _bits(d): return max(x.numerator.bit_length() + x.denominator.bit_length() for x in d)
+    if any(_bits(d) > max_full_bits for d in discs):
+        return [(lo[i], hi[i]) for i in range(n)], covered, uncovered
     if open_r:
         cf, cov_f, unc_f = count_and_cover(orc, discs)
         for i in range(n): lo[i] = max(lo[i], cf[i][0]); hi[i] = min(hi[i], cf[i][1])
@@ -306,3 +311,24 @@ def judge_discs(orc, discs):
         for i, (l, h) in zip(open_d, orc.count([discs[i] for i in open_d])):
             lo[i] = max(lo[i], l); hi[i] = min(hi[i], h)
     return [(lo[i], hi[i]) for i in range(n)], covered, uncovered
+
+
+def run_records_safe(ctx, binary, cases_opts, env, timeout=120, workers=16):
+    """run_records, but a solve whose export cannot be turned into exact numbers (MemoryError / OverflowError on an
+    astronomically large exponent) becomes a record of kind 'unparsed' instead of aborting the whole check."""
+    import concurrent.futures
+    wd = os.path.join(ctx.scratch, "jobs"); os.makedirs(wd, exist_ok=True)
+    def one(ij):
+        i, (c, o) = ij
+        path = os.path.join(wd, "job%d.pol" % i)
+        with open(path, "w") as f: f.write(c["text"])
+        try:
+            r = S.run_solve(binary, path, o, env=env, timeout=timeout)
+        except (MemoryError, OverflowError, ValueError) as e:
+            r = S.SolveResult(); r.kind = "unparsed"; r.msg = repr(e)[:200]
+        try: os.remove(path)
+        except OSError: pass
+        return r
+    with concurrent.futures.ThreadPoolExecutor(max_workers=workers) as ex:
+        results = list(ex.map(one, list(enumerate(cases_opts))))
+    return [{"case": c, "opts": o, "res": r, "poly": None, "oracle": None, "why": ""} for (c, o), r in zip(cases_opts, results)]
